@@ -398,6 +398,27 @@ def nontrivial(stream, line, out):
 def oracle(stream, line, out):
     """Independent statement of the property on the implementation's own outputs."""
     w = line.split()
+    if stream == "g-part":
+        # the fixed-width helpers u8 … p64be are part of the property's codecs: their value is stated here from the name alone
+        nm = w[1]
+        width = {"8": 1, "16": 2, "32": 4, "64": 8}[nm[1:].replace("be", "")]
+        big = nm.endswith("be")
+        signed = w[3] == "T"
+        if nm.startswith("u"):
+            d = C.unhx(w[2])[:width]
+            v = 0
+            for b in (d if big else d[::-1]):
+                v = v * 256 + b
+            if signed and d and v >= 256 ** len(d) // 2:
+                v -= 256 ** len(d)
+            return out == f"ok {v}"
+        v = int(w[2])
+        lim = 256 ** width
+        fits = (-(lim // 2) <= v < lim // 2) if signed else (0 <= v < lim)
+        if not fits:
+            return out == "exc OverflowError"
+        e = [((v % lim) >> (8 * i)) & 0xFF for i in range(width)]
+        return out == "ok " + C.hx(bytes(e[::-1] if big else e))
     if stream.startswith("g-"):
         return None
     if stream == "xor":
